@@ -9,12 +9,13 @@ CONSTANTS
   EgcSet = {TRUE, FALSE}
   VbandSet = {"wide", "narrow"}
   PlimSet = {"loose", "tight"}
-  QlimSet = {"loose", "tight"}
+  QlimSet = {"tight"}
   RateSet = {"loose", "tight"}
-  VarSet = {1, 2}
-  CtrlSets = {{}, {"gen"}, {"sgen", "load"}, {"gen", "storage"}, {"sgen", "load", "storage"}, {"gen", "sgen", "load", "storage"}}
+  VarSet = {1}
+  CtrlSets = {{}, {"gen", "storage"}, {"sgen", "load"}, {"gen", "sgen", "load", "storage"}}
   Profiles = {"lin", "pwl"}
   MaxCosted = 1
+  GridModelMax = 150
 INVARIANT ObjectiveConvention
 INVARIANT PwlWellFormed
 INVARIANT CostInRange
